@@ -73,6 +73,8 @@ bool well_formed(const Case &c) {
         if (o.kind == OP_DESTROY) have = false;
         (void)route;
     }
+    // the enumerating profile's tags (which call is the query / carries the fault) refer to the last call of a two-call configuration
+    if (c.profile == "alloc" && c.tags.count("alloc_two_call") && c.ops.size() != 2) return false;
     // leak accounting needs histories that give everything back at the end
     if ((c.profile == "leak" || c.profile == "symleak" || c.profile == "carry") && (have || route)) return false;
     return true;
